@@ -315,7 +315,7 @@ def run_shard(rep, tier, seed, shard, nshards):
     roots = cache_roots()
     hs = {}
     try:
-        ncases = budget(tier, 24, 48)
+        ncases = budget(tier, 24, 192)
         for c in range(ncases):
             kind = KINDS[c % len(KINDS)]
             cs = f"{seed}/C15/{c}"  # cases are the same in every shard; crash points are split
